@@ -13,7 +13,7 @@ Line numbers are preserved (copy_location).  The transform is idempotent.
 import ast
 import os
 
-N9_ENABLED = os.environ.get('GSA_N9', '0') != '0'      # off until the three rule sites that name their locals read through them
+N9_ENABLED = os.environ.get('GSA_N9', '1') != '0'      # second stage on; GSA_N9=0 switches it off (development aid)
 
 NEG = {ast.Eq: ast.NotEq, ast.NotEq: ast.Eq, ast.Lt: ast.GtE, ast.LtE: ast.Gt, ast.Gt: ast.LtE, ast.GtE: ast.Lt, ast.Is: ast.IsNot, ast.IsNot: ast.Is,
        ast.In: ast.NotIn, ast.NotIn: ast.In}
@@ -238,7 +238,7 @@ class InlineTemps(ast.NodeTransformer):
                     h.body = self._block(h.body)
             nxt = stmts[i + 1] if i + 1 < len(stmts) else None
             if nxt is not None and isinstance(s, ast.Assign) and len(s.targets) == 1 and isinstance(s.targets[0], ast.Name) and s.targets[0].id in self._cand \
-                    and not isinstance(s.value, (ast.Yield, ast.YieldFrom, ast.Await, ast.NamedExpr)) \
+                    and not isinstance(s.value, (ast.Yield, ast.YieldFrom, ast.Await, ast.NamedExpr, ast.ListComp, ast.SetComp, ast.DictComp, ast.GeneratorExp, ast.List, ast.Dict, ast.Set)) \
                     and not isinstance(nxt, ast.While):        # a while test is re-evaluated
                 name = s.targets[0].id
                 use = self._single_plain_use(self._own_exprs(nxt), name)
